@@ -13,7 +13,7 @@ var Props = []*h.Prop{
 		Stub:        stubDist,
 		Assumptions: []string{"row order and timing fields are not compared", "error texts of failed hosts are compared only for presence"}},
 	{ID: "C31", Run: c31, Bubble: true,
-		Rule:        "distributed variant: K in 1..3 slots on ONE shared distributed.QueryRunner, K+1..3K+2 client goroutines issuing 1-2 queries each at drawn simulated instants; per call: success, resolver error / query safeguard (both after the slot was taken), all hosts down, or cancellation after a drawn delay; host replies take 0-2 s of simulated time; the scheduler interleaves requests and replies and advances the fake clock so that semaphore time-outs expire; checked as in the engine variant (requests in flight of at most K queries, 429 only when all slots were held throughout, no slot held after quiescence, K fresh queries succeed, every caller returns); non-trivial = K queries had requests in flight while another client was waiting or rejected; one run in three is the server variant: the limit is configured on the real global-query API server (pkg/api/globalquery/server.New with WithQueryRateLimit(rate, burst, K), rate 0 or a rate that never refuses) and the queries are POST /_query requests to its router (handler called directly, no socket); the server's semaphore cannot be looked at, so the clauses are: requests in flight for at most K queries at any quiescent point, ok-queries answered, every caller returns, K+1 sequential fresh requests succeed after quiescence",
+		Rule:        "distributed variant: K in 1..3 slots on ONE shared distributed.QueryRunner, K+1..3K+2 client goroutines issuing 1-2 queries each at drawn simulated instants; per call: success, resolver error / query safeguard (both after the slot was taken), all hosts down, or cancellation after a drawn delay; host replies take 0-2 s of simulated time; the scheduler interleaves requests and replies and advances the fake clock so that semaphore time-outs expire; checked as in the engine variant (requests in flight of at most K queries, 429 only when all slots were held throughout, no slot held after quiescence, K fresh queries succeed, every caller returns); non-trivial = K queries had requests in flight while another client was waiting or rejected; one run in three is the server variant: the limit is configured on the real global-query API server (pkg/api/globalquery/server.New with WithQueryRateLimit(rate, burst, K), rate 0 or a rate that never refuses) and the queries are POST /_query requests to its router (handler called directly, no socket); the server's semaphore cannot be looked at, so the clauses are: requests in flight for at most K queries at any quiescent point, ok-queries answered, every caller returns, K+1 sequential fresh requests succeed after quiescence; in the server variant one call in eight is resolved by a host-list resolver plug-in that panics after the slot was taken (the server's recovery middleware survives it; the slot must come back)",
 		Real:        append([]string{"server variant: pkg/api/server.NewDefault/WithQueryRateLimit, pkg/api/globalquery/server.New/registerRoutes, pkg/api RegisterQueryAPI (distributed) + handlers, gin + huma routing"}, realDist...),
 		Stub:        stubDist,
 		Assumptions: []string{"every client queries its own pair of simulated hosts so that requests can be attributed to queries"}},
